@@ -48,6 +48,17 @@ def gen_bin_value(rng, fd):
                                    rng.randint(-2 ** (w - 1), 2 ** (w - 1) - 1)])]
     if k == "float":
         c = rng.random()
+        if c < 0.2 and n in (2, 4):
+            # midpoint of two adjacent values of the field's width, nudged: exposes double rounding via a wider type
+            w = {2: 16, 4: 32}[n]
+            pat = rng.getrandbits(w) & ~(1 << (w - 1))
+            a = struct.unpack(FFMT[n], pat.to_bytes(n, "little"))[0]
+            b2 = struct.unpack(FFMT[n], (pat + 1).to_bytes(n, "little"))[0]
+            if a == a and b2 == b2 and not math.isinf(a) and not math.isinf(b2):
+                m = (a + b2) / 2
+                x = rng.choice([m, math.nextafter(m, math.inf), math.nextafter(m, -math.inf), m * (1 + 2.0 ** -30), m * (1 - 2.0 ** -30),
+                                m * (1 + 2.0 ** -40)])
+                return ["float", fl.f2b(x * rng.choice([1, -1]))]
         if c < 0.5:
             b = rng.getrandbits(64)
             if (b >> 52) & 0x7FF == 0x7FF:
